@@ -128,7 +128,10 @@ def run_case(ctx, case):
     rng = np.random.default_rng(case['seed'])
     key = (case['dc'], case['dc_unit'], case['ec'], case['ec_unit'])
     cfg = {'dc': case['dc'], 'dc_unit': case['dc_unit'], 'ec': case['ec'], 'ec_unit': case['ec_unit']}
-    uc = UnitConverter(dc=case['dc'], dc_unit=case['dc_unit'], ec=case['ec'], ec_unit=case['ec_unit'])
+    wrap = {0: float, 1: np.float64, 2: np.float32}[case['seed'] % 3] if case['seed'] % 5 == 0 else float       # characteristic values computed with numpy
+    dcv, ecv = wrap(case['dc']), wrap(case['ec'])
+    cfg['dc'], cfg['ec'] = float(dcv), float(ecv)
+    uc = UnitConverter(dc=dcv, dc_unit=case['dc_unit'], ec=ecv, ec_unit=case['ec_unit'])
     _S['cfg'] = {id(uc): cfg}
     if case['arg'] == 'scalar':
         x = float(10 ** rng.uniform(-3, 3))
